@@ -10,7 +10,7 @@
  *      F_POSLV(s)                              the lvalue(s) a position change may assign
  *      F_INV(s) F_FRAME(s) F_PRE_E(s) F_PRE_U(s)
  *  All spec arithmetic is done in 128 bits so the specification itself cannot wrap.
- *  Bytes are specified for an arbitrary relative index gk AND for an arbitrary absolute source offset g_soff (ghosts).
+ *  Bytes are specified for an arbitrary relative index gk AND for an arbitrary arbitrary absolute source offset g_soff, read in each stream's own coordinates (ghosts).
  */
 #ifndef OP2_KR_H
 #define OP2_KR_H
@@ -23,6 +23,8 @@
 #define KR_FITS(F, s, n)      (W(n) <= W(F##_LEN(s)) - W(F##_POS(s)))
 #define KR_FITS_OLD(F, s, n)  (W(n) <= W(F##_LEN_OLD(s)) - W(F##_POS_OLD(s)))
 #define KR_REM(F, s)          (F##_LEN(s) - F##_POS(s))
+/* the ghost source offset (in THIS stream's coordinates: F_SOFF(s), valid when F_SOFF_OK(s)) lies among the n bytes from the old position */
+#define KR_SOFF_IN(F, s, n)   (F##_SOFF_OK(s) && F##_SOFF(s) >= F##_POS_OLD(s) && F##_SOFF(s) - F##_POS_OLD(s) < (uint64_t)(n))
 
 /* Read(buf, n): normal exit iff n <= len - pos; atomic on failure */
 #define KR_READ(m, F, s, buffer, size) \
@@ -32,7 +34,7 @@
   __CPROVER_ensures(op2_exc == (KR_FITS_OLD(F, s, size) ? 0 : 1)) \
   __CPROVER_ensures(F##_POS(s) == F##_POS_OLD(s) + (op2_exc ? 0 : size)) \
   __CPROVER_ensures((!op2_exc && gk < size) ==> ((const char *)buffer)[gk] == F##_BUF(s)[F##_POS_OLD(s) + gk]) \
-  __CPROVER_ensures((!op2_exc && g_soff >= F##_POS_OLD(s) && g_soff - F##_POS_OLD(s) < size) ==> ((const char *)buffer)[g_soff - F##_POS_OLD(s)] == F##_BUF(s)[g_soff]) \
+  __CPROVER_ensures((!op2_exc && KR_SOFF_IN(F, s, size)) ==> ((const char *)buffer)[F##_SOFF(s) - F##_POS_OLD(s)] == F##_BUF(s)[F##_SOFF(s)]) \
   __CPROVER_ensures(F##_INV(s) && F##_FRAME(s))
 
 /* ReadPartial(buf, n): never throws, delivers m = min(n, len - pos) */
@@ -43,7 +45,7 @@
   __CPROVER_ensures(__CPROVER_return_value == (KR_FITS_OLD(F, s, size) ? size : F##_LEN_OLD(s) - F##_POS_OLD(s))) \
   __CPROVER_ensures(F##_POS(s) == F##_POS_OLD(s) + __CPROVER_return_value) \
   __CPROVER_ensures(gk < __CPROVER_return_value ==> ((const char *)buffer)[gk] == F##_BUF(s)[F##_POS_OLD(s) + gk]) \
-  __CPROVER_ensures((g_soff >= F##_POS_OLD(s) && g_soff - F##_POS_OLD(s) < __CPROVER_return_value) ==> ((const char *)buffer)[g_soff - F##_POS_OLD(s)] == F##_BUF(s)[g_soff]) \
+  __CPROVER_ensures(KR_SOFF_IN(F, s, __CPROVER_return_value) ==> ((const char *)buffer)[F##_SOFF(s) - F##_POS_OLD(s)] == F##_BUF(s)[F##_SOFF(s)]) \
   __CPROVER_ensures(F##_INV(s) && F##_FRAME(s) && op2_exc == 0)
 
 #define KR_LENGTH(m, F, s) \
@@ -88,6 +90,8 @@ typedef struct Rd { const char* src; uint64_t len; uint64_t pos; } Rd;
 #define RDF_BUF_OLD(s) OLD((s)->src)
 #define RDF_LEN_OLD(s) OLD((s)->len)
 #define RDF_POS_OLD(s) OLD((s)->pos)
+#define RDF_SOFF(s) g_soff
+#define RDF_SOFF_OK(s) 1
 #define RDF_POSLV(s) (s)->pos
 #define RDF_INV(s) ((s)->pos <= (s)->len)
 #define RDF_FRAME(s) ((s)->src == OLD((s)->src) && (s)->len == OLD((s)->len))
@@ -114,6 +118,8 @@ typedef struct Ws { const char* src; uint64_t len; uint64_t pos; } Ws;
 #define WSF_BUF_OLD(s) OLD((s)->src)
 #define WSF_LEN_OLD(s) OLD((s)->len)
 #define WSF_POS_OLD(s) OLD((s)->pos)
+#define WSF_SOFF(s) g_soff
+#define WSF_SOFF_OK(s) 1
 #define WSF_POSLV(s) (s)->pos
 #define WSF_INV(s) ((s)->pos <= (s)->len)
 #define WSF_FRAME(s) ((s)->src == OLD((s)->src) && (s)->len == OLD((s)->len))
